@@ -122,9 +122,9 @@ func runVerify(w *World, opt verifyOpts) int {
 		return 2
 	}
 	thorough := opt.tier == "thorough"
-	secs, depth := 10, 2
+	secs, depth := 30, 2
 	if thorough {
-		secs, depth = 60, 3
+		secs, depth = 90, 3
 	}
 
 	// functions of this property
